@@ -162,7 +162,7 @@ func (f *Frame) mapUpdate(x *ssa.MapUpdate) {
 	key := f.keySlots(mt, f.val(x.Key), x.Key.Type())
 	val := f.val(x.Value)
 	f.oblig("nopanic:nil", "mapupdate", tb.Not(tb.Eq(obj, tb.BV(32, 0))), x.Pos(), "assignment to entry in nil map")
-	if fs := f.frameSpecActive(); fs != nil && !f.spec {
+	if f.writeChecksActive() {
 		f.checkWrite(obj, tb.BV(64, 0), tb.BV(64, 1), "mapupdate", x.Pos())
 	}
 	had := f.u.mc.MSel(f.mapNode(f.cur.mem, tk+"#has", BoolSort), obj, key)
@@ -212,7 +212,7 @@ func (f *Frame) mapDelete(c *ssa.CallCommon, in ssa.Instruction) {
 	key := f.keySlots(mt, f.val(c.Args[1]), c.Args[1].Type())
 	had := f.mapHas(f.cur.mem, c.Args[0].Type(), obj, key)
 	oldLen := f.u.mc.Sel(f.cur.mem.m[mapLenKey], obj, tb.BV(64, 0))
-	if fs := f.frameSpecActive(); fs != nil && !f.spec {
+	if f.writeChecksActive() {
 		f.checkWrite(obj, tb.BV(64, 0), tb.BV(64, 1), "mapdelete", in.Pos())
 	}
 	f.setMapNode(tk+"#has", f.u.mc.mnode(&MapNode{kind: mpStore, sort: BoolSort, prev: f.mapNode(f.cur.mem, tk+"#has", BoolSort), obj: obj, key: key, val: tb.False()}))
